@@ -18,7 +18,7 @@ CLAIMS = {
    note=COMMON_NOTE + "Modelled not verified: Box<[T]> as List, PeriodType as Nat with explicit maximum, debug-profile panics.",
    ref="DESIGN.md §5 C01"),
  "C02": dict(cat="proof", tech="Lean 4 invariant proofs (incremental machine = from-scratch formula) + two-layer differential replay under a rounding allowance",
-   text="For SMA, WMA, Integral, Momentum, Derivative, RateOfChange, Past, StDev (variance under the root), LinearVolatility: theorems for every length, construction value, stream "
+   text="For SMA, WMA, Integral, Momentum, Derivative, RateOfChange, Past, StDev (variance under the root), LinearVolatility, MeanAbsDev, CCI: theorems for every length, construction value, stream "
         "and position that the model's output equals the documented formula on the last n values (induction over the stream via a "
         "state invariant). All 19 methods: model and from-scratch spec are executed in exact rational arithmetic on every generated "
         "step and must agree exactly; the Rust outputs and serialized accumulators must lie within the allowance of the exact values, "
